@@ -10,19 +10,9 @@ compares angles the model takes the angle values as inputs.
 -/
 import RV.Num.Parse
 import RV.Model.Angles
+import RV.Num.Vec3
 namespace RV.Visibility
-
-structure V3 where
-  x : Rat
-  y : Rat
-  z : Rat
-deriving Repr, DecidableEq
-
-def V3.dot (a b : V3) : Rat := a.x * b.x + a.y * b.y + a.z * b.z
-def V3.nsq (a : V3) : Rat := a.dot a
-def V3.add (a b : V3) : V3 := ⟨a.x + b.x, a.y + b.y, a.z + b.z⟩
-def V3.sub (a b : V3) : V3 := ⟨a.x - b.x, a.y - b.y, a.z - b.z⟩
-def V3.smul (c : Rat) (a : V3) : V3 := ⟨c * a.x, c * a.y, c * a.z⟩
+open RV
 
 /-- `lineOfSight(r1, r2)` with squared body radius `R2` (Vallado Alg. 35).  The code divides by
 `|r1 - r2|²`; for `r1 = r2` it produces NaN, the model is only used for `r1 ≠ r2`. -/
